@@ -6,14 +6,10 @@ import (
 	"crypto/ecdsa"
 	"crypto/elliptic"
 	"crypto/rand"
-	"io"
-	"time"
 	"crypto/hkdf"
 	"crypto/sha256"
 	"math/big"
-
 	"github.com/btcsuite/btcd/btcec/v2"
-
 	"github.com/onflow/crypto/hash"
 )
 
@@ -116,6 +112,18 @@ func zzC11_verify(algoIdx, sigLen, hasherKind int) {
 	msg := nondetBytes(2)
 	h := ecdsaHasher(hasherKind)
 	sig := nondetBytes(sigLen)
+	// the model's claim "the reference accepts this signature" is realised natively by a signature made with the
+	// reference (crypto/ecdsa on the leftmost 256 bits of the digest), so that counterexamples in which the
+	// library rejects a signature of the reference replay
+	refValid := nondetBool()
+	if verifNative() && refValid && sigLen == 64 {
+		d := ecdsaHasher(hasherKind).ComputeHash(msg)
+		r, s2, e := ecdsa.Sign(rand.Reader, sk.(*prKeyECDSA).goPrKey, d[:32])
+		if e == nil {
+			r.FillBytes(sig[:32])
+			s2.FillBytes(sig[32:])
+		}
+	}
 	sig0 := append([]byte{}, sig...)
 	ok, err := pk.Verify(sig, msg, h)
 	verifAssert(err == nil, "no error with a valid hasher")
@@ -129,6 +137,7 @@ func zzC11_verify(algoIdx, sigLen, hasherKind int) {
 	}
 	digest := ecdsaHasher(hasherKind).ComputeHash(msg)
 	want := refECDSAVerify(pk.(*pubKeyECDSA).goPubKey, digest[:32], sig0[:32], sig0[32:])
+	verifAssume(refValid == want)
 	verifAssert(ok == want, "Verify = ECDSA relation on (r = sig[:32], s = sig[32:], leftmost 256 bits of the digest)")
 	inRange := bAnd(bAnd(nonZeroBE(sig0[:32]), nonZeroBE(sig0[32:])), bAnd(lessThanBE(sig0[:32], ecN[algoIdx][:]), lessThanBE(sig0[32:], ecN[algoIdx][:])))
 	verifAssert(fmtOK == inRange, "SignatureFormatCheck = (1 <= r, s < n)")
@@ -358,7 +367,7 @@ func zzC12_ecdsa(algoIdx, seedLen int) {
 	seed := nondetBytes(seedLen)
 	seed0 := append([]byte{}, seed...)
 	sk, err := GeneratePrivateKey(algo, seed)
-	if seedLen < KeyGenSeedMinLen || seedLen > KeyGenSeedMaxLen {
+	if seedLen < 32 || seedLen > 256 { // (literal bounds: the documented values, not the library constants)
 		verifAssert(bAnd(sk == nil, IsInvalidInputsError(err)), "seed lengths outside [32, 256] are rejected")
 		verifReach("keygen rejected")
 		return
@@ -385,153 +394,12 @@ func zzC12_ecdsa(algoIdx, seedLen int) {
 	verifReach("keygen ecdsa")
 }
 
-func zzC12_bls(seedLen int) {
-	seed := nondetBytes(seedLen)
-	seed0 := append([]byte{}, seed...)
-	sk, err := GeneratePrivateKey(BLSBLS12381, seed)
-	if seedLen < KeyGenSeedMinLen || seedLen > KeyGenSeedMaxLen {
-		verifAssert(bAnd(sk == nil, IsInvalidInputsError(err)), "seed lengths outside [32, 256] are rejected")
-		verifReach("keygen rejected")
+func assertEqBytes(got, want []byte, what string) {
+	verifAssert(len(got) == len(want), what+" (length)")
+	if len(got) != len(want) {
 		return
 	}
-	verifAssert(err == nil, "valid seed lengths are accepted")
-	assertEqBytes(seed, seed0, "seed unmodified")
-	// IETF BLS KeyGen: salt = SHA-256("BLS-SIG-KEYGEN-SALT-"), IKM || I2OSP(0,1), info = I2OSP(48,2), L = 48
-	salt := refSHA2_256([]byte("BLS-SIG-KEYGEN-SALT-"))
-	ikm := append(append([]byte{}, seed0...), 0)
-	okm := refHKDF(ikm, salt, string([]byte{0, 48}), 48)
-	var x scalar
-	isZero := mapToFr(&x, okm)
-	if isZero {
-		// the retry with the re-hashed salt
-		salt = refSHA2_256(salt)
-		okm = refHKDF(ikm, salt, string([]byte{0, 48}), 48)
-		isZero = mapToFr(&x, okm)
-		verifAssume(!isZero)
-	}
-	got := sk.Encode()
-	verifAssert(sk.(*prKeyBLSBLS12381).scalar.equals(&x), "private key = mapToFr(HKDF(salt, IKM||0, info = 00 30, 48)) with the documented retry")
-	verifAssert(frIsOS2IPModR(&sk.(*prKeyBLSBLS12381).scalar, okm), "private key = OS2IP(okm) mod r")
-	verifAssert(!sk.(*prKeyBLSBLS12381).scalar.isZero(), "the generated key is never zero")
-	sk2, err := GeneratePrivateKey(BLSBLS12381, seed0)
-	verifAssert(bAnd(err == nil, sk2.Equals(sk)), "generation is deterministic")
-	pk := sk.PublicKey()
-	verifAssert(pk == sk.PublicKey(), "PublicKey() returns the cached object")
-	dec, err := DecodePrivateKey(BLSBLS12381, got)
-	verifAssert(err == nil, "the generated key decodes")
-	verifAssert(dec.PublicKey().Equals(pk), "public key = generator times the private scalar (same for the decoded scalar)")
-	verifReach("keygen bls")
-}
-
-// frIsOS2IPModR: x = OS2IP(b) mod r (natively with math/big; symbolically as exact linear forms over Z_r)
-func frIsOS2IPModR(x *scalar, b []byte) bool {
-	r, _ := new(big.Int).SetString("73eda753299d7d483339d80809a1d80553bda402fffe5bfeffffffff00000001", 16)
-	v := new(big.Int).SetBytes(b)
-	v.Mod(v, r)
-	want := make([]byte, frBytesLen)
-	v.FillBytes(want)
-	got := make([]byte, frBytesLen)
-	writeScalar(got, x)
 	for i := range got {
-		if got[i] != want[i] {
-			return false
-		}
+		verifAssert(got[i] == want[i], what)
 	}
-	return true
 }
-
-// zzC12_mapToFr: bytes -> F_r is reduction of the big-endian integer modulo r, for every content of n bytes
-func zzC12_mapToFr(n int) {
-	b := nondetBytes(n)
-	b0 := append([]byte{}, b...)
-	var x scalar
-	isZero := mapToFr(&x, b)
-	assertEqBytes(b, b0, "input unmodified")
-	verifAssert(frIsOS2IPModR(&x, b0), "mapToFr(b) = OS2IP(b) mod r")
-	verifAssert(isZero == x.isZero(), "returned flag = (result is zero)")
-	verifReach("mapToFr")
-}
-
-// zzC12_aggregated: the public key of an aggregated private key is the aggregated scalar times the generator,
-// whatever public keys were already computed (cached) in the input key objects -- mode 0 none, 1 only the last,
-// 2 only the first, 3 all
-func zzC12_aggregated(mode int) {
-	var x1, x2 scalar
-	nondetFrStar(&x1)
-	nondetFrStar(&x2)
-	sk1, sk2 := newPrKeyBLSBLS12381(&x1), newPrKeyBLSBLS12381(&x2)
-	if mode == 2 || mode == 3 {
-		_ = sk1.PublicKey()
-	}
-	if mode == 1 || mode == 3 {
-		_ = sk2.PublicKey()
-	}
-	agg, err := AggregateBLSPrivateKeys([]PrivateKey{sk1, sk2})
-	verifAssert(err == nil, "AggregateBLSPrivateKeys")
-	pk := agg.PublicKey()
-	verifAssert(pk == agg.PublicKey(), "PublicKey() returns the cached object")
-	if !agg.(*prKeyBLSBLS12381).scalar.isZero() {
-		dec, err := DecodePrivateKey(BLSBLS12381, agg.Encode())
-		verifAssert(err == nil, "the aggregated key decodes")
-		verifAssert(dec.PublicKey().Equals(pk), "public key of the aggregated key = generator times the aggregated scalar")
-	}
-	sum, _ := AggregateBLSPublicKeys([]PublicKey{newPrKeyBLSBLS12381(&x1).PublicKey(), newPrKeyBLSBLS12381(&x2).PublicKey()})
-	verifAssert(sum.Equals(pk), "and equals the sum of the public keys")
-	verifReach("keygen aggregated")
-}
-
-type c12SlowReader struct{ r io.Reader }
-
-func (s c12SlowReader) Read(p []byte) (int, error) {
-	time.Sleep(200 * time.Microsecond)
-	return s.r.Read(p)
-}
-
-// zzC12_concurrent: key generation is a function of the seed also when several goroutines generate keys at once
-// (symbolically one call runs; buffers handed to a sync.Pool must not be touched afterwards -- the executor checks
-// that; natively goroutines generate keys concurrently under the race detector and compare with sequential results)
-func zzC12_concurrent(algoKind int) {
-	algo := BLSBLS12381
-	if algoKind > 0 {
-		algo = ecdsaAlgoOf(algoKind - 1)
-	}
-	const k = 8
-	seeds := make([][]byte, k)
-	want := make([][]byte, k)
-	base := nondetBytes(KeyGenSeedMinLen)
-	for i := range seeds {
-		seeds[i] = append(append([]byte{}, base...), byte(i))
-	}
-	for i := range seeds {
-		sk, err := GeneratePrivateKey(algo, seeds[i])
-		verifAssume(err == nil)
-		want[i] = sk.Encode()
-		if !verifNative() {
-			break // (one sequential generation is enough symbolically)
-		}
-	}
-	if verifNative() {
-		// natively the window between handing a buffer back and wiping it is widened by a slow entropy source
-		// (overwrite() draws from crypto/rand), as a concurrent workload on a loaded machine would
-		old := rand.Reader
-		rand.Reader = c12SlowReader{old}
-		defer func() { rand.Reader = old }()
-	}
-	verifParallel(k, func() {
-		for rep := 0; rep < verifNativeRepeat(60); rep++ {
-			for i := range seeds {
-				sk, err := GeneratePrivateKey(algo, seeds[i])
-				verifAssert(err == nil, "concurrent key generation succeeds")
-				if err == nil {
-					assertEqBytes(sk.Encode(), want[i], "concurrent key generation returns the key of the seed")
-				}
-				if !verifNative() {
-					return
-				}
-			}
-		}
-	})
-	verifReach("keygen concurrent")
-}
-
-func refSHA2_256(data []byte) []byte { d := sha256.Sum256(data); return d[:] }
